@@ -60,11 +60,13 @@ def run(res, programs, tier):
     fdt_tables.r03_1(res, programs, "R10.1a")
     res.rule("R10.1", "Round::round_fract / round_ratio (trait defaults), instantiated with each of the six modes, return the adjustment prescribed by the definition for every sign / half / zero case of the fraction")
     res.rule("R10.2", "FBig::floor / ceil / round use round_fract::<Down / Up / HalfAway>; their smaller-than-one shortcuts return the constant the definition names per sign")
+    res.rule("R10.2b", "mode-generic rounding functions (FBig::to_int, repr_round*, repr_round_sum, repr_div, sqrt) take the Rounding of every Inexact result from a call on their mode R, never from a constant")
     res.rule("R10.3", "rational Repr::{ceil, floor, round, trunc} equal exact rational rounding on a domain covering every sign x {integer, < 1/2, = 1/2, > 1/2} case")
     for P in programs:
         if "dashu_float" in P.units:
             _r10_1(res, P, P.name)
             _r10_2(res, P, P.name)
+            _r10_2b(res, P, P.name)
         if "dashu_ratio" in P.units:
             _r10_3(res, P, P.name)
 
@@ -159,6 +161,42 @@ def _r10_2(res, P, cfgname):
                 res.ok("R10.2", cfgname, key, sample=dict(function=f["p"], table=got))
             else:
                 res.fail("R10.2", cfgname, key, "FBig::%s returns %s for |x| < 1 by sign, the definition requires %s" % (name, got, short[name]), span_loc(f["sp"]))
+
+
+MODE_ROUNDERS = [
+    "dashu_float::convert::<impl dashu_float::fbig::FBig<R, B>>::to_int",
+    "dashu_float::repr::Context::<R>::repr_round", "dashu_float::repr::Context::<R>::repr_round_ref",
+    "dashu_float::add::<impl dashu_float::repr::Context<R>>::repr_round_sum",
+    "dashu_float::div::<impl dashu_float::repr::Context<R>>::repr_div",
+    "dashu_float::root::<impl dashu_float::repr::Context<R>>::sqrt",
+]
+
+
+def _r10_2b(res, P, cfgname):
+    """every Inexact(value, rounding) produced by a mode-generic rounding function takes its
+    Rounding from a call on the mode R (round_fract / round_ratio / round_low_part), never a constant"""
+    for path in MODE_ROUNDERS:
+        f = next((g for g in P.fns("dashu_float") if g["p"] == path), None)
+        if f is None:
+            res.anchor("R10.2b", cfgname, "fn " + path)
+            continue
+        S = sym.Sym(f)
+        n = 0
+        bad = None
+        for i, j, s in mir.iter_stmts(f["mir"]):
+            if s["k"] == "as" and s["rv"]["k"] == "agg" and s["rv"].get("adt") == "dashu_base::approx::Approximation" and s["rv"]["vn"] == "Inexact":
+                n += 1
+                r = S.operand(s["rv"]["ops"][1])
+                ok = any(isinstance(x, tuple) and x[0] == 'call' and x[1].startswith("dashu_float::round::Round::round_") for x in sym.subterms(r))
+                if not ok:
+                    bad = (sym.term_str(r, 80), span_loc(s["sp"]))
+        key = "%s: Rounding of every Inexact comes from the mode" % path.rsplit("::", 1)[1]
+        if n == 0:
+            res.anchor("R10.2b", cfgname, "Inexact(..) in " + path)
+        elif bad:
+            res.fail("R10.2b", cfgname, key, "%s returns Inexact(.., %s): a mode-generic rounding function must take the adjustment from its rounding mode R on every inexact path" % (path, bad[0]), bad[1])
+        else:
+            res.ok("R10.2b", cfgname, key, sample=dict(function=path, inexact_sites=n))
 
 
 def _r10_3(res, P, cfgname):
